@@ -21,6 +21,12 @@ pub fn hit(id: u16, a0: u16, a1: u16) -> Result<u8> {
     Ok(0)
 }
 
+/// Stub for `Cpu::trapa_emulate_mes2` in harnesses about TRAPA #1-#3 (the system-call path is the
+/// subject of C14): counts as a ghost hit.
+pub fn ghost_mes2(_c: &mut Cpu) -> Result<()> {
+    hit(9999, 0, 0).map(|_| ())
+}
+
 pub fn called() -> u16 {
     unsafe { GHOST_CALLED }
 }
@@ -59,6 +65,11 @@ pub fn kind_index(t: &StateType) -> u8 {
 /// Stub for `Cpu::calc_state_with_addr`: logs (kind, count, address), returns the pre-drawn cost.
 pub fn ghost_calc_state_with_addr(_c: &Cpu, state_type: StateType, state: u8, target_addr: u32) -> Result<u8> {
     unsafe {
+        // contract of the real function (C19 harnesses): internal cycles ignore the address; any other
+        // kind is rejected for an address that is neither on-chip RAM nor in areas 0-7 (>= 2^24)
+        if kind_index(&state_type) != K_N && target_addr > 0xffffff {
+            return Err(anyhow::Error::new_opaque());
+        }
         if LOG_N < LOG_MAX {
             LOG[LOG_N] = (kind_index(&state_type), state, target_addr);
             let c = COSTS[LOG_N];
